@@ -124,3 +124,82 @@ def token_classes(model: Model):
             cp = None
         out[ci.name] = {"text": text, "codepoint": cp, "init": init, "call": call, "ci": ci}
     return out
+
+
+# ---------------------------------------------------------------------------
+_CATS = {
+    "CATEGORY_DIGIT": lambda c: c.isdigit() if ord(c) > 127 else c in "0123456789",
+    "CATEGORY_SPACE": lambda c: c.isspace() if ord(c) > 127 else c in " \t\n\r\x0b\x0c",
+    "CATEGORY_WORD": lambda c: (c.isalnum() or c == "_"),
+}
+
+
+def member_fn(text: str, flags=0):
+    """text must be a one-character matcher (class, shorthand, escaped or plain single character, '.'):
+    -> (predicate over characters, uses_category) or None."""
+    try:
+        tree = parse_regex(text, flags)[0]
+    except re.error:
+        return None
+    if len(tree) != 1:
+        return None
+    node = tree[0]
+    kind = node[0]
+    if kind == "LITERAL":
+        return (lambda c, v=node[1]: ord(c) == v), False
+    if kind == "NOT_LITERAL":
+        return (lambda c, v=node[1]: ord(c) != v), False
+    if kind == "ANY":
+        return (lambda c: True), False
+    if kind != "IN":
+        return None
+    items = list(node[1])
+    neg = bool(items) and items[0][0] == "NEGATE"
+    if neg:
+        items = items[1:]
+    preds = []
+    uses_cat = False
+    for it in items:
+        if it[0] == "LITERAL":
+            preds.append(lambda c, v=it[1]: ord(c) == v)
+        elif it[0] == "RANGE":
+            preds.append(lambda c, a=it[1][0], b=it[1][1]: a <= ord(c) <= b)
+        elif it[0] == "CATEGORY":
+            uses_cat = True
+            name = str(it[1])
+            base = name.replace("_NOT", "")
+            fn = _CATS.get(base)
+            if fn is None:
+                return None
+            if "_NOT_" in name:
+                preds.append(lambda c, fn=fn: not fn(c))
+            else:
+                preds.append(fn)
+        else:
+            return None
+    return (lambda c: any(p(c) for p in preds) != neg), uses_cat
+
+
+def denotes(text: str, want_intervals, want_neg: bool, flags=0):
+    """Does the one-character matcher `text` denote exactly the set (intervals, polarity)?  When the text uses a
+    Unicode-aware shorthand (\\d \\s \\w) only ASCII is compared (the property leaves the rest unspecified).
+    -> (ok, explanation)"""
+    mf = member_fn(text, flags)
+    if mf is None:
+        return False, f"{text!r} is not a single-character matcher"
+    pred, uses_cat = mf
+    probe = set(range(0, 128))
+    if not uses_cat:
+        for a, b in want_intervals:
+            for x in (a - 1, a, a + 1, (a + b) // 2, b - 1, b, b + 1):
+                if 0 <= x <= MAXU and not (0xD800 <= x <= 0xDFFF):
+                    probe.add(x)
+        probe.update([0xE9, 0x3B1, 0x4E00, 0xFFFF, 0x10000, MAXU])
+
+    def want(cp):
+        return any(a <= cp <= b for a, b in want_intervals) != want_neg
+    bad = [cp for cp in sorted(probe) if pred(chr(cp)) != want(cp)]
+    if bad:
+        ex = ", ".join(f"U+{cp:04X}({'in' if pred(chr(cp)) else 'out'})" for cp in bad[:6])
+        return False, f"{text!r} differs from the requested set at {ex}"
+    return True, ""
